@@ -213,7 +213,16 @@ theorem maySign_not_blocked (a : Addr) (h : MaySign a) : isBlocked a = false := 
       have hall : ∀ x ∈ blockedAddrs, 1000 ≤ x := by decide
       have h2 : 1000 ≤ a := hall a this
       exact absurd (Nat.lt_of_lt_of_le h h2) (Nat.lt_irrefl _)
-  · subst h; decide
+  · rcases h with h | h
+    · subst h; decide
+    · cases hb : isBlocked a with
+      | false => rfl
+      | true =>
+        exfalso
+        have : a ∈ blockedAddrs := by simpa [isBlocked] using hb
+        have hall : ∀ x ∈ blockedAddrs, x < 2000 := by decide
+        have h2 : a < 2000 := hall a this
+        exact absurd (Nat.lt_of_lt_of_le h2 h) (Nat.lt_irrefl _)
 
 /-- a claim raises the balance of an account other than the escrow and the fee collector by at most
 the payment to the receiver -/
